@@ -1456,8 +1456,12 @@ pub fn rebind_and_unwind(spec: &crate::Spec) -> Report {
                                     }
                                 }
                             }
-                            // do not let Rx::drop unlink the path: it belongs to the current server now
-                            std::mem::forget(o);
+                            // close it, but do not let Rx::drop unlink the path: it belongs to the current server now
+                            let mut o = o;
+                            if let Rx::Unix(_, _, p) = &mut o {
+                                *p = PathBuf::from("/nonexistent/verif-old-server");
+                            }
+                            drop(o);
                         }
                     }
                 }
@@ -1500,8 +1504,11 @@ pub fn rebind_and_unwind(spec: &crate::Spec) -> Report {
                     break;
                 }
             }
-            for o in old.drain(..) {
-                std::mem::forget(o);
+            for mut o in old.drain(..) {
+                if let Rx::Unix(_, _, p) = &mut o {
+                    *p = PathBuf::from("/nonexistent/verif-old-server");
+                }
+                drop(o);
             }
             rep.distinct(&(format!("{:?}{:?}", cap, h), at_current.len()));
         }
